@@ -113,6 +113,7 @@ class LabelSessionGen(gen.SessionGen):
         conns = [gen.ConnGen(r, tg, r.random() < 0.3, self.proto, self.kinds, self.amb, pool) for tg in tags]
         for c in conns:
             c.next_client = 2
+            c.unres = 0.05          # some messages about objects the log never saw being created (shown without a connection label)
         t = r.choice([0, 770203519])
         events = []
         for k in range(r.randint(*o['nmsg'])):
